@@ -471,7 +471,93 @@ def r20_6(ctx, prog, crate):
             ctx.check(a == {"param:self.sorting_attr", "param:self.reverse_sort"}, "R20.6", ["run_action", "sorted-as-configured"], "sort_by_attr gets %s" % sorted(a), so[0].line())
 
 
+def _lower_bound(e):
+    """Least value a canonical expression over unsigned quantities can take (None = unbounded below).  Lengths, counts,
+    saturating differences and parameters are >= 0; a sum is bounded by the sum of its parts when no part is subtracted."""
+    k = e[0]
+    if k == "int":
+        return e[1]
+    if k == "lin":
+        lb = e[2]
+        for a, c in e[1]:
+            if c < 0:
+                return None
+            al = _lower_bound(a)
+            if al is None:
+                return None
+            lb += c * al
+        return lb
+    if k == "mul":
+        out = 1
+        for f in e[1]:
+            fl = _lower_bound(f)
+            if fl is None:
+                return None
+            out *= fl
+        return out
+    if k in ("arg", "upvar", "site", "phi", "field", "cell"):
+        return 0
+    if k == "call":
+        n = e[1].rsplit("::", 1)[-1]
+        if n in ("saturating_sub", "len", "count", "abs_diff", "wrapping_sub", "checked_sub"):
+            return 0
+        if n in ("max",):
+            ls = [_lower_bound(a) for a in e[2]]
+            return None if any(x is None for x in ls) else max(ls)
+        if n in ("min",):
+            ls = [_lower_bound(a) for a in e[2]]
+            return None if any(x is None for x in ls) else min(ls)
+        if n in ("saturating_add",):
+            ls = [_lower_bound(a) for a in e[2]]
+            return None if any(x is None for x in ls) else sum(ls)
+        return 0
+    if k == "payload":
+        return 0
+    return None
+
+
+def r20_7(ctx, prog, crate):
+    """The name of a line and its first statistics column never run together: wherever the name buffer is right-padded
+    (start_parent, start_leaf and their helper) the number of spaces appended is at least the column gap (TREE_COL_BUF >= 1)
+    for EVERY name length and every current span - decided by a lower bound over the canonical value expression of the
+    padding length (lengths, counts and saturating differences are >= 0), not by running the painter."""
+    from lib.symexpr import Sym, show
+    sites = []
+    for b in prog.lib_bodies(crate):
+        if not b.path.startswith("tree_painter::") or "::tests::" in b.path:
+            continue
+        S = Sym(b)
+        for c in b.live_calls():
+            if not (c.callee.endswith("::take") and len(c.args) == 2):
+                continue
+            r = S.op(c.args[0])
+            if not (r[0] == "site" and r[1].endswith("::repeat")):
+                continue
+            n = S.op(c.args[1])
+            # the name padding: its length is computed from a character count of the buffer and the running name span
+            # (column padding inside TreeColumnData::write comes from a checked difference and may be 0)
+            text = repr(n)
+            if "count" in text and ("max_name_span" in text or b.path.endswith("right_pad_buffer")) and "checked_sub" not in text:
+                sites.append((b, c, n))
+    ctx.anchor("R20.7", "name right-padding sites in tree_painter", sites, 1)
+    for b, c, n in sites:
+        ctx.saw(b)
+        lb = _lower_bound(n)
+        ctx.check(lb is not None and lb >= 1, "R20.7", [b.path.rsplit("::", 1)[-1], "gap-never-vanishes"],
+                  "the padding after the name is %s, whose least value is %s: for a name longer than the current span the name and the first column run together "
+                  "(expected gap + saturating_sub(span, len), at least 1)" % (show(n), lb), c.line(), detail={"padding": show(n), "lower_bound": lb})
+    # both line starters pad (directly or through the helper)
+    for fn in ("start_parent", "start_leaf"):
+        b = prog.body(P + fn, crate)
+        if b is None:
+            continue
+        direct = any(x is b for x, _c, _n in sites)
+        via = any(c.callee == x.path for c in b.live_calls() for x, _c, _n in sites)
+        ctx.check(direct or via, "R20.7", [fn, "pads-the-name"], "`%s` does not right-pad the name before the columns" % fn, b.where(0))
+
+
 def run(ctx, prog, crate):
+    r20_7(ctx, prog, crate)
     r20_1(ctx, prog, crate)
     r20_2(ctx, prog, crate)
     r20_3(ctx, prog, crate)
